@@ -110,6 +110,11 @@ func run(id, tier string) int {
 	}
 	os.MkdirAll(filepath.Join(wd, "evidence"), 0o755)
 	os.MkdirAll(filepath.Join(wd, "replays"), 0o755)
+	if old, _ := filepath.Glob(filepath.Join(wd, "replays", id+"-*.json")); len(old) > 0 {
+		for _, f := range old {
+			os.Remove(f)
+		}
+	}
 
 	worker, err := build(dir, false)
 	if err != nil {
